@@ -377,4 +377,3 @@ func checkC13(r *vlib.Run) int {
 	_ = strings.Join
 	return r.Finish(n, res.distinct.Len(), "worker x blocking state x downstream capacity: {namedpipe, syslog, auditlog ingester} x {waiting for a writer, idle pipe, mid-record}; syslog ingester with the login hand-off blocked; auditlog ingester with the downstream channel full and the consumer stopped, capacities {0,1,16,10000}, and empty with a running consumer; Auditd.Read idle and under a continuous stream (deliveries after the return are counted by logical clock); distinct = states actually reached")
 }
-
